@@ -4,7 +4,7 @@ VerifySingleTxnHardConstraints, VerifyBlockTxnConstraints; F14 witness replayed 
 from props import _hrs
 
 SPEC = {
-    "uses_gen": ["CoinHours"],           # closes over Mathutil
+    "uses_gen": ["CoinHours", "CoinLoops"],   # closes over Mathutil
     "cmd": "c03",
     "budget": (500, 12000),
     "header": "From Sky Require Import Base.Uint Model.ArithSpec Model.HoursSpec.\nOpen Scope Z_scope.",
@@ -22,8 +22,8 @@ SPEC = {
     },
     "search_seeds": 2,
     "trusted_base": [
-        "translator /verif/translator (Go->Gallina) for UxOut.CoinHours, AddUint64, MultUint64 — regenerated on this run, validated by C31 and by the mono group here",
-        "hand-written loops of Model/Hours.v (VerifyTransactionHoursSpending, OutputHours, UxArray.CoinHours, VerifyTransactionCoinsSpending, order of checks in VerifySingleTxnHardConstraints / VerifyBlockTxnConstraints) — compared with the running code on this run's cases",
+        "translator /verif/translator (Go->Gallina) for UxOut.CoinHours, AddUint64, MultUint64 and (loops over slices, Gen/CoinLoops.v) VerifyTransactionHoursSpending, VerifyTransactionCoinsSpending, Transaction.OutputHours, UxArray.CoinHours — regenerated on this run, validated by C31 (groups l_*) and by the mono group here",
+        "the loops of Model/Hours.v (VerifyTransactionHoursSpending, OutputHours, UxArray.CoinHours, VerifyTransactionCoinsSpending) are PROVED equal to the regenerated Gen/CoinLoops.v for all inputs (C03_*_is_translated, Proofs/HoursRefine.v) and also compared with the running code on this run's cases; still hand-written and only compared: the order of checks in VerifySingleTxnHardConstraints / VerifyBlockTxnConstraints (src/transaction/verify.go)",
         "structural / signature checks (txn.Verify, VerifyInputSignatures, duplicate outputs) enter the model as the datum `pre` computed by the implementation (subject of C09); theorems hold for every `pre`",
         "function level: a block / pool history is not replayed; that the node calls these checkers on every block transaction and on pool admission is read from visor/blockchain.go, not proved",
         "harness generator, Coq-term printer, error naming by sentinel identity or constant message prefix",
